@@ -20,46 +20,94 @@ from .common import fq
 
 PROP = "C16"
 INFO = dict(
-    technique="Lean 4 proof (LJSON encode/decode round trip on a JSON value tree; points-format rounding bound; "
-              "kernel-decided IEEE binary64 eight-bit round trip over all 256 values; exact quantisation bound; "
-              "overwrite guard as an invariant over every export history; path normalisation and longest-known "
-              "extension parsing) + model/implementation correspondence and a bytes-level oracle on real files",
-    level_text="Theorems over an executable model of ljson_exporter/tojson/ljson_importer (identical coordinates incl. "
-               "missing values, symmetrised edge set, labels in order, group names, version dispatch), of "
-               "pts_exporter/pts_importer (axis swap, 1-based offset, three decimals), of normalize_pixels_range / "
-               "denormalize_pixels_range on IEEE doubles (all 256 eight-bit values decided by the kernel: the coded "
-               "truncating cast loses exactly 24 values by one level - refuted by witness - the rounding repair loses "
-               "none), of the float quantisation (< one level), and of _norm_path / _parse_and_validate_extension / "
-               "_validate_filepath / _export (a refused export raises OverwriteError and leaves the file system "
-               "unchanged, for every history, exporter kind and spelling).  Tied to /repo by exporting and re-importing "
-               "real files (all shape classes and managers, 2-D/3-D, NaN, unicode ordered labels; every lossless PIL "
-               "codec of the sandbox x grey/RGB/RGBA/binary sources with all 256 values; float64/float32 images; "
-               "every picklable menpo object plain and gzipped; export histories with str/Path, relative/absolute, "
-               "redundant spellings and multi-dot names with the directory hashed before and after every call).",
-    level_note="Trusted: Lean kernel; axioms propext/Classical.choice/Quot.sound; that Lean's Float and numpy's float64 "
-               "are the same IEEE binary64 operations (validated on all 256 values by the correspondence); harness; "
-               "driver parser.  Contract parameters (not verified, checked on every run): json (value tree written = "
+    technique="Lean 4 proof (LJSON encode/decode round trip on a JSON value tree with all three version parsers and a "
+              "fixed point over any number of cycles; points-format rounding bound in any dimension with NaN; binary64 "
+              "error analysis of the integer range conversion for every bit depth up to 48 (all 65 536 sixteen-bit values "
+              "without enumeration) next to the kernel-decided IEEE evaluation of all 256 eight-bit values; exact "
+              "quantisation bound; exporter and importer agree on (format, compressed) for EVERY file name; the overwrite "
+              "guard as an invariant of a file-system model over every export history and every spelling _norm_path "
+              "understands (~, $VAR, ${VAR}, ./.., str/Path); menpo's code around Python's serialiser) + regenerated "
+              "extension dictionaries with decide obligations + model/implementation correspondence and a bytes-level "
+              "oracle on real files",
+    level_text="Theorems over an executable model of ljson_exporter/tojson/ljson_importer with all three parsers "
+               "(identical coordinates incl. missing values, symmetrised edge set, labels in order, group names, version "
+               "dispatch; the first import is a fixed point of any number of further export/import cycles; every "
+               "successful import of ANY JSON tree of any version returns well-formed groups; version-1/2 documents "
+               "yield one group LJSON that is a plain point cloud or a labelled graph with distinct labels covering "
+               "every point; a version-2 document of a group imports to what the version-3 export of that group imports "
+               "to; a version-1 document imports to the concatenated points, offset-shifted edges and one slice label "
+               "per group, and re-exporting it as version 3 loses nothing), of export_landmark_file's own check (a "
+               "dictionary / LandmarkManager is only ever handed to the LJSON writer), of pts_exporter/pts_importer (axis swap, 1-based offset, three decimals; any dimension >= 2 and NaN "
+               "coordinates, axes beyond the second are dropped), of normalize_pixels_range / denormalize_pixels_range "
+               "in binary64 (general lemma: any rounding with relative error <= 2^-53 returns every level k <= N for "
+               "N <= 2^48, instantiated at an executable 53-bit round-to-nearest-even, so all 65 536 sixteen-bit and all "
+               "256 eight-bit values; also all 256 eight-bit values decided by the kernel on Lean's Float; the truncating "
+               "cast of the earlier code refuted by witness at both depths), of the float quantisation (< one level), "
+               "of the extension parsers of exporters and importers and the gzip decision of export_pickle (for every "
+               "file name - any number of dots, any case, extension-like components anywhere in the stem - the importer "
+               "parses the extension the exporter parsed and gunzips iff the exporter gzipped; a pickle is gzipped iff "
+               "the lower-cased name ends in .gz), of _norm_path (str(Path), expanduser, expandvars, normpath, abspath) / "
+               "_parse_and_validate_extension / _validate_filepath / _export / _export_paths_only / export_pickle "
+               "(a refused export raises OverwriteError and changes no file; an accepted export changes only its own "
+               "file; after ANY history every path holds the bytes of the last accepted export that targeted it; no "
+               "history without overwrite=True changes an existing file - for every exporter kind, spelling and "
+               "environment; the earlier _export_paths_only that checked one spelling of a str path and wrote another "
+               "refuted by witness), and of pickle_paths_as_pure + _import around Python's serialiser (an object comes "
+               "back with the same attributes in the same order up to Path -> PurePath, nothing attached below the top "
+               "level, path attached only if missing; dictionaries and lists of n != 1 objects member-wise; "
+               "Path.__reduce__ restored after any sequence of exports).  Tied to /repo by exporting and re-importing "
+               "real files (all shape classes and managers, 2-D/3-D, NaN, unicode ordered labels, repeated cycles; "
+               "hand-written version 1/2 documents incl. the failing ones; points files of 1..4-D shapes with NaN; every "
+               "lossless PIL codec of the sandbox x grey/RGB/RGBA/binary/boolean sources with all 256 values; all 65 536 "
+               "sixteen-bit and 256 eight-bit levels through normalize/denormalize and Image.as_PILImage; float64/float32 "
+               "images in C / Fortran / strided layouts; every picklable menpo object plain and gzipped and random "
+               "object trees; multi-dot names with extension-like stems in four spellings of the case for every "
+               "exporter; export histories with str/Path, relative/absolute, redundant, ~ and $VAR spellings, a directory "
+               "literally called ~ holding bait files, the directory hashed before and after every call) and by six "
+               "decide obligations over tables regenerated from the live code on every run: the exporter / importer "
+               "dictionaries (observed through the public export_* / import_* entry points; the agreement theorem is "
+               "instantiated at them), _ljson_parser_for_version (ljson_importer = lookup in that table) and the "
+               "version number the live ljson_exporter writes.",
+    level_note="Trusted: Lean kernel; axioms propext/Classical.choice/Quot.sound; harness; driver parser.  That rn53 (the "
+               "rational model of binary64 round-to-nearest-even), Lean's Float and numpy's float64 agree is not "
+               "assumed: checked on every run on all 65 536 + 256 levels (sets of lost levels under truncation and "
+               "under rounding).  Contract parameters (not verified, checked on every run): json (value tree written = "
                "value tree read, repr round-trips doubles), '%.3f' (correctly rounded, ties on the exact value to "
-               "even), PIL lossless codecs (probed per run with PIL alone), pickle/gzip, os.path.normpath/abspath.",
-    rule="a case = one export/import round trip of one object through one file format, or one export history "
-         "(<= 6 exports, mixed spellings and overwrite flags) on one exporter, or one name/spelling for the "
-         "extension parser / path normaliser; distinct = distinct parameter dictionary; non-trivial = more than one "
-         "point / pixel value / operation, or a name with more than one dot",
-    partial=["pickle: Python's serialiser is a contract (model = identity); the clause has no theorem and is decided by "
-             "the state-equality oracle on real .pkl / .pkl.gz files of every menpo object family",
-             "eight-bit theorem is about uint8 (the property's quantifier); the uint16 analogue is not proved",
-             "path spellings with '~' or '$VAR' are not modelled (the guard checks the expanded path, _export opens the "
-             "unexpanded one); symbolic links are not modelled",
-             "LJSON v1/v2 parsers (import only, never written by the exporter) are not modelled",
-             "JPEG and other lossy codecs are covered by the overwrite guard only; EPS/GIF/DCX/PCD/PSD/XBM/XPM/video "
-             "cannot be written or read back in this sandbox (no Ghostscript/ffmpeg/PIL writer) and are covered by the "
-             "guard (refusal happens before the codec is reached) only"],
-    assumptions=["temporary directories are on a POSIX file system without symbolic links below the scratch root"],
+               "even), PIL lossless codecs (probed per run with PIL alone), pickle/gzip (the object tree written is the "
+               "object tree read), os.path / pathlib / pwd (no user called c16nosuchuser; HOME set), ffmpeg (replaced "
+               "during video histories by a stub that writes bytes to the path it is handed).",
+    rule="a case = one export/import round trip of one object through one file format (plus 0..2 further cycles for "
+         "LJSON), or one hand-written LJSON v1/v2 document, or one export history (<= 6 exports, mixed spellings and "
+         "overwrite flags) on one exporter, or one file name through one exporter and its importer, or one "
+         "name/spelling for the extension parser / path normaliser, or one integer range; distinct = distinct "
+         "parameter dictionary; non-trivial = more than one point / pixel value / operation, or a name with more "
+         "than one dot",
+    partial=["pickle: pickle.dump / pickle.load / gzip themselves are a contract parameter (the object tree written is the "
+             "tree read); what menpo's own code does around them is proved (which opener and which importer for every "
+             "file name: export_import_agree; paths pickled pure, path attached, unwrapping: Props/C16Pickle.lean) and "
+             "the clause as a whole is decided by the state-equality oracle on real .pkl / .pkl.gz files of every "
+             "menpo object family; a pickled ONE-element list comes back as its element (_import unwraps it) - a list "
+             "is not a menpo object, modelled and checked as the code is",
+             "sixteen-bit data: proved for normalize_pixels_range -> denormalize_pixels_range (the only place menpo "
+             "handles uint16: the importer rejects 16-bit PIL modes and the exporter always writes uint8), tied by the "
+             "exhaustive correspondence of all 65 536 levels; float images are quantised to 8 bits only",
+             "path spellings: '~user' for an existing user, HOME unset (both consult the password database) and a "
+             "result with exactly two leading slashes are not modelled; symbolic links are not modelled",
+             "the points format holds two axes: a 3-D shape exported as .pts comes back 2-D (ptsN_drops_higher_axes "
+             "models it; the property's three-decimal clause is checked on the two axes the format has)",
+             "JPEG and other lossy codecs are covered by the overwrite guard and the name/importer agreement only; "
+             "EPS/GIF/DCX/PCD/PSD/XBM/XPM cannot be written or read back in this sandbox (no Ghostscript/ffmpeg/PIL "
+             "writer) and are covered by the guard (refusal happens before the codec is reached) only; video export "
+             "runs with a stub in place of ffmpeg (paths and guard only)"],
+    assumptions=["temporary directories are on a POSIX file system without symbolic links below the scratch root",
+                 "no user called c16nosuchuser exists; the harness sets HOME, C16ROOT, C16SUB for the duration of a "
+                 "guard / normalisation case and restores them"],
     design_ref="DESIGN.md section 6, C16")
-IMPORTS = ["MenpoModel.Props.C16"]
+IMPORTS = ["MenpoModel.Props.C16", "MenpoModel.Props.C16V1"]
+TARGETS = ["MenpoModel.Props.C16", "MenpoModel.Props.C16V1", "MenpoModel.Drive.C16"]
 THEOREMS = [
     "MenpoModel.C16.ljson_roundtrip", "MenpoModel.C16.ljson_group_names", "MenpoModel.C16.ljson_group_content",
-    "MenpoModel.C16.ljson_edges_stable", "MenpoModel.C16.ljson_version_dispatch",
+    "MenpoModel.C16.ljson_edges_stable", "MenpoModel.C16.ljson_cycle_fixed_point", "MenpoModel.C16.ljson_version_dispatch",
     "MenpoModel.C16.ljson_empty_points_error", "MenpoModel.C16.ljson_other_dims_dropped",
     "MenpoModel.C16.pts_roundtrip_3dp", "MenpoModel.C16.pts_roundtrip_exact",
     "MenpoModel.C16.u8_roundtrip_round", "MenpoModel.C16.u8_trunc_failures", "MenpoModel.C16.u8_trunc_off_by_one",
@@ -68,6 +116,35 @@ THEOREMS = [
     "MenpoModel.C16.export_guard_refuses", "MenpoModel.C16.export_guard_history", "MenpoModel.C16.export_guard_frame",
     "MenpoModel.C16.export_guard_spelling", "MenpoModel.C16.normpath_redundant_spellings",
     "MenpoModel.C16.normpath_fixed", "MenpoModel.C16.extension_parse_longest_known",
+    # exporter and importer agree on (format, compressed) for every file name (Props/C16Ext.lean)
+    "MenpoModel.C16.export_import_agree", "MenpoModel.C16.decisions_agree_of_tables",
+    "MenpoModel.C16.export_reader_matches", "MenpoModel.C16.pickle_compressed_iff_name_ends_gz",
+    "MenpoModel.C16.pickle_extension_cases", "MenpoModel.C16.tables_ok", "MenpoModel.C16.exporterTable_keys",
+    "MenpoModel.C16.dict_export_reaches_ljson_only", "MenpoModel.C16.single_export_is_parse",
+    # the importers of LJSON versions 1 and 2 (Props/C16Legacy.lean)
+    "MenpoModel.C16.ljson_import_wellformed", "MenpoModel.C16.ljson_legacy_wellformed",
+    "MenpoModel.C16.ljson_v2_reads_v3_group", "MenpoModel.C16.ljson_v2_edges_need_labels",
+    "MenpoModel.C16.ljson_version_dispatch_legacy", "MenpoModel.C16.ljson_dispatch_is_table",
+    "MenpoModel.C16.exported_version_has_parser",
+    # version 1 in closed form and its upgrade to version 3 (Props/C16V1.lean)
+    "MenpoModel.C16.ljson_v1_import", "MenpoModel.C16.ljson_v1_upgrade",
+    # integer image data of any bit depth up to 16, by error analysis (Props/C16Soft.lean)
+    "MenpoModel.C16.range_roundtrip_of_rounding", "MenpoModel.C16.range_roundtrip_round",
+    "MenpoModel.C16.u16_roundtrip_round", "MenpoModel.C16.u8_roundtrip_round_arith",
+    "MenpoModel.C16.u16_trunc_refuted", "MenpoModel.C16.rn53_err", "MenpoModel.C16.roundHalfEven_near",
+    # the guard as an invariant of a file-system model, every spelling _norm_path understands (Props/C16Paths.lean)
+    "MenpoModel.C16.export_history_final", "MenpoModel.C16.export_history_never_clobbers",
+    "MenpoModel.C16.export_accepted_changes_only_target", "MenpoModel.C16.export_refused_changes_nothing",
+    "MenpoModel.C16.expand_noop", "MenpoModel.C16.expandUser_home", "MenpoModel.C16.coded_eq_repaired",
+    "MenpoModel.C16.runHistoryCoded_eq", "MenpoModel.C16.video_str_tilde_clobbers",
+    "MenpoModel.C16.video_str_tilde_repaired", "MenpoModel.C16.coded_guard_refuted",
+    # the points format in any dimension, with NaN (Props/C16PtsN.lean)
+    "MenpoModel.C16.ptsN_roundtrip", "MenpoModel.C16.ptsN_drops_higher_axes", "MenpoModel.C16.ptsN_extends_2d",
+    # what menpo does around Python's serialiser (Props/C16Pickle.lean)
+    "MenpoModel.C16.pickle_roundtrip_object", "MenpoModel.C16.pickle_state_equal", "MenpoModel.C16.purify_idem",
+    "MenpoModel.C16.purify_noop", "MenpoModel.C16.purify_pathFree", "MenpoModel.C16.pickle_roundtrip_dict",
+    "MenpoModel.C16.pickle_roundtrip_list", "MenpoModel.C16.pickle_singleton_list_unwrapped",
+    "MenpoModel.C16.hook_restored",
 ]
 
 TRUNC24 = [33, 37, 41, 45, 49, 53, 57, 61, 66, 74, 82, 90, 98, 106, 114, 122, 132, 148, 164, 180, 196, 212, 228, 244]
@@ -75,6 +152,146 @@ LOSSLESS_CANDIDATES = [".bmp", ".dib", ".im", ".pbm", ".pcx", ".pgm", ".png", ".
 SITE_U8 = "C16/image8/denormalize_pixels_range"
 PAT_U8 = "truncation-one-lower-24-values"
 UNICODE_NAMES = ["left eye", "größe", "眼", "b", "a", "Z", "nose.tip", "été", "_", "0"]
+
+
+# --------------------------------------------------------------------------------------------- regenerated tables
+
+GEN_IMPORT = "MenpoModel.GenProps.C16"
+GEN_TARGETS = ["MenpoModel.Generated.C16Tables", GEN_IMPORT]
+GEN_THEOREMS = ["MenpoModel.GenProps.C16.exporterLive_ok", "MenpoModel.GenProps.C16.importerLive_ok",
+                "MenpoModel.GenProps.C16.live_tables_ok", "MenpoModel.GenProps.C16.export_import_agree_live",
+                "MenpoModel.GenProps.C16.ljsonParsers_ok", "MenpoModel.GenProps.C16.ljsonExportedVersion_ok"]
+KINDS = ("landmark", "image", "pickle", "video")
+
+
+def callable_name(f):
+    import functools
+    while isinstance(f, functools.partial):
+        f = f.func
+    return getattr(f, "__name__", type(f).__name__)
+
+
+def live_tables():
+    """the dictionaries the PUBLIC export_* / import_* functions hand to the shared machinery, observed by calling
+    them with the shared helper replaced by a recorder (nothing is written or read); falls back to the module-level
+    dictionaries of menpo.io.{output,input}.extensions if the helpers are no longer there"""
+    import menpo.io as mio
+    import menpo.io.output.base as ob
+    import menpo.io.input.base as ib
+    from menpo.io.output import extensions as ox
+    from menpo.io.input import extensions as ix
+    seen = {}
+
+    class Stop(Exception):
+        pass
+
+    def rec_export(obj, fp, extensions_map, *a, **k):
+        seen["ex"] = extensions_map
+        raise Stop()
+
+    def rec_parse(filepath, extension, extensions_map):
+        seen["ex"] = extensions_map
+        raise Stop()
+
+    def rec_import(filepath, extensions_map, *a, **k):
+        seen["im"] = extensions_map
+        raise Stop()
+
+    def observe(key, fn, *args):
+        seen.pop(key, None)
+        try:
+            fn(*args)
+        except Stop:
+            pass
+        except Exception:       # noqa: BLE001 - the fallback below is used
+            pass
+        return seen.get(key)
+
+    how = "observed through export_* / import_*"
+    saved = {}
+    ex, im = {}, {}
+    try:
+        for mod, nm, repl in ((ob, "_export", rec_export), (ob, "_export_paths_only", rec_export),
+                              (ob, "_parse_and_validate_extension", rec_parse), (ib, "_import", rec_import)):
+            saved[(mod, nm)] = getattr(mod, nm)
+            setattr(mod, nm, repl)
+        nowhere = "/nonexistent-c16/x"
+        ex["landmark"] = observe("ex", mio.export_landmark_file, None, nowhere + ".ljson")
+        ex["image"] = observe("ex", mio.export_image, None, nowhere + ".png")
+        ex["pickle"] = observe("ex", mio.export_pickle, None, nowhere + ".pkl")
+        ex["video"] = observe("ex", mio.export_video, [], nowhere + ".mp4")
+        im["landmark"] = observe("im", mio.import_landmark_file, nowhere + ".ljson")
+        im["image"] = observe("im", mio.import_image, nowhere + ".png")
+        im["pickle"] = observe("im", mio.import_pickle, nowhere + ".pkl")
+        im["video"] = observe("im", mio.import_video, nowhere + ".mp4")
+    except AttributeError:
+        pass
+    finally:
+        for (mod, nm), f in saved.items():
+            setattr(mod, nm, f)
+    fb_ex = {"landmark": ox.landmark_types, "image": ox.image_types, "pickle": ox.pickle_types, "video": ox.video_types}
+    fb_im = {"landmark": ix.image_landmark_types, "image": ix.image_types, "pickle": ix.pickle_types,
+             "video": ix.ffmpeg_video_types}
+    for k in KINDS:
+        if not isinstance(ex.get(k), dict):
+            ex[k] = fb_ex[k]
+            how = "module-level dictionaries (a public entry point could not be observed)"
+        if not isinstance(im.get(k), dict):
+            im[k] = fb_im[k]
+            how = "module-level dictionaries (a public entry point could not be observed)"
+    t = {"how": how}
+    try:
+        import io
+        import numpy as np
+        from menpo.shape import PointCloud
+        import menpo.io.input.landmark as il
+        from menpo.io.output.landmark import ljson_exporter
+        t["ljsonParsers"] = sorted((int(v), callable_name(f)) for v, f in il._ljson_parser_for_version.items())
+        buf = io.BytesIO()
+        ljson_exporter(PointCloud(np.zeros((1, 2))), buf)
+        t["ljsonExportedVersion"] = int(json.loads(buf.getvalue().decode("utf8"))["version"])
+    except Exception as e:                          # noqa: BLE001 - reported through the obligation
+        t.setdefault("ljsonParsers", [])
+        t.setdefault("ljsonExportedVersion", 0)
+        t["ljson_table_error"] = "%s: %s" % (type(e).__name__, e)
+    for k in KINDS:
+        t[k + "Exporters"] = sorted((str(e), callable_name(f)) for e, f in ex[k].items())
+        t[k + "Importers"] = sorted((str(e), callable_name(f)) for e, f in im[k].items())
+    return t
+
+
+def generated_text(t):
+    def st(x):
+        return '"%s"' % str(x).replace("\\", "\\\\").replace('"', '\\"')
+
+    body = []
+    for k in KINDS:
+        for side in ("Exporters", "Importers"):
+            rows = t[k + side]
+            body.append("def %s%s : List (String × String) :=\n  [%s]\n" % (
+                k, side, ",\n   ".join("(%s, %s)" % (st(e), st(f)) for e, f in rows)))
+    body.append("def ljsonParsers : List (Nat × String) :=\n  [%s]\n" % ", ".join(
+        "(%d, %s)" % (v, st(f)) for v, f in t["ljsonParsers"]))
+    body.append("def ljsonExportedVersion : Nat := %d\n" % t["ljsonExportedVersion"])
+    return ("/- REGENERATED by harness/c16.py from the live menpo code on every run: the extension dictionaries the public\n"
+            "   export_landmark_file / export_image / export_pickle / export_video and import_landmark_file / import_image /\n"
+            "   import_pickle / import_video hand to the shared export / import machinery, as (extension, name of the\n"
+            "   callable) sorted by extension; `_ljson_parser_for_version` (version, parser) and the version number a file\n"
+            "   written by `ljson_exporter` carries.  Do not edit. -/\n"
+            "namespace MenpoModel.Generated.C16\n\n" + "\n".join(body) + "\nend MenpoModel.Generated.C16\n")
+
+
+def generated(ctx):
+    t = live_tables()
+    ctx.notes["live_tables"] = t
+    ok = common.build_generated(ctx, {"MenpoModel/Generated/C16Tables.lean": generated_text(t)}, GEN_TARGETS,
+                                len(GEN_THEOREMS))
+    if not ok and ctx.broken_obligations:
+        ctx.broken_obligations[-1]["obligation"] = "MenpoModel.GenProps.C16 (exporterLive_ok / importerLive_ok / " \
+                                                   "live_tables_ok / export_import_agree_live / ljsonParsers_ok / " \
+                                                   "ljsonExportedVersion_ok)"
+        ctx.broken_obligations[-1]["observed"] = t
+    return ok
 
 
 # --------------------------------------------------------------------------------------------- scratch
@@ -114,6 +331,7 @@ class Run:
         self.pending = {}
         self.u8_obs = {}       # eight-bit value -> set of values that came back after normalise -> export -> import
         self.q8_obs = {}       # m (pixel = m/1024) -> set of stored levels
+        self.guard_variants = set()   # which of the two modelled `_export_paths_only` a discriminating history matched
         self.codecs = None
 
     def ask(self, op, args, expect, replay):
@@ -171,6 +389,11 @@ class Run:
         if len(variants) > 1:
             ctx.mismatch("u8", "the range conversion is neither uniformly the coded (truncating) nor uniformly the "
                                "repaired (rounding) model", {"variants": sorted(variants)})
+        if len(self.guard_variants) > 1:
+            ctx.mismatch("guard", "export histories match neither uniformly the coded nor uniformly the repaired "
+                                  "`_export_paths_only`", {"variants": sorted(self.guard_variants)})
+        ctx.notes["export_paths_only_variant_observed"] = sorted(self.guard_variants)[0] if len(
+            self.guard_variants) == 1 else ("undetermined" if not self.guard_variants else "mixed")
         ctx.notes["denormalize_variant_observed"] = sorted(variants)[0] if len(variants) == 1 else (
             "undetermined" if not variants else "mixed")
 
@@ -271,9 +494,12 @@ def gen_ljson(rng):
         groups = [gen_group(rng, nm, d=d) for nm in names]
     # an upper-case suffix is accepted for a single shape only (export_landmark_file compares `Path(fp).suffix`
     # with '.ljson' literally when given a dictionary / manager): outside the property's quantifier, not generated
-    files = ["lm.ljson", "a.b.ljson", ".hidden.ljson", "x.tar.ljson"] + (["x.tar.LJSON"] if container == "single" else [])
+    files = ["lm.ljson", "a.b.ljson", ".hidden.ljson", "x.tar.ljson", "x.pkl.copy.ljson", "a.gz.b.ljson",
+             "scan.tar.gz.v2.ljson", "y.pts.ljson", "z.PKL.GZ.ljson", "w..ljson"]
+    if container == "single":
+        files += ["x.tar.LJSON", "x.PKL.GZ.LJson", "a.pts.gz.lJSON"]
     return {"kind": "ljson", "container": container, "groups": groups, "file": rng.choice(files),
-            "as_path": rng.random() < 0.5}
+            "as_path": rng.random() < 0.5, "cycles": rng.choice([0, 0, 1, 2])}
 
 
 def label_masks(shape):
@@ -325,6 +551,27 @@ def case_ljson(run, p):
         except Exception as e:
             ctx.fail(site, "raises", "export/import of a valid landmark dictionary raised %s: %s" % (type(e).__name__, e), rp)
             return
+        # ---- further cycles: the first import is a fixed point (ljson_cycle_fixed_point)
+        prev = back
+        for c in range(p.get("cycles", 0)):
+            ctx.count("ljson:further-cycle")
+            try:
+                fp2 = os.path.join(d, "cycle%d.%s" % (c, os.path.basename(str(fp))))
+                mio.export_landmark_file(dict(prev) if len(prev) != 1 or p["container"] != "single" else
+                                         list(prev.values())[0], fp2)
+                nxt = mio.import_landmark_file(fp2)
+            except Exception as e:
+                ctx.fail(site + "/cycle", "raises", "re-exporting the imported groups raised %s: %s" % (type(e).__name__, e), rp)
+                break
+            same = list(nxt.keys()) == list(prev.keys())
+            for k in prev:
+                a, b2 = prev[k], nxt.get(k)
+                same = same and b2 is not None and type(a) is type(b2) and a.points.shape == b2.points.shape and bool(
+                    np.array_equal(a.points, b2.points, equal_nan=True)) and a.edges.tolist() == b2.edges.tolist() and \
+                    label_masks(a) == label_masks(b2)
+            ctx.check(same, site + "/cycle", "not-a-fixed-point",
+                      "cycle %d: importing the re-exported groups returned something else than the previous import" % (c + 2), rp)
+            prev = nxt
         # ---- oracle: the property text
         ctx.check(set(back.keys()) == set(shapes.keys()), site + "/groups", "names-differ",
                   "group names %r came back as %r" % (sorted(shapes), sorted(back.keys())), rp)
@@ -393,6 +640,200 @@ def case_ljson_empty(run, p):
     run.ask("ljson", "1 g000 0 %d -1 0" % p["dim"], obs, rp_of(p))
 
 
+# --------------------------------------------------------------------------------------------- LJSON v1 / v2 (import only)
+
+ERR_CLASSES = {"empty-points": ("IndexError",), "edge-out-of-range": ("ValueError",), "empty-labels": ("ValueError",),
+               "unlabelled-point": ("ValueError",), "unknown-version": ("ValueError",),
+               "malformed": ("ValueError", "IndexError", "KeyError", "TypeError")}
+
+
+def gen_rows(rng, n, d):
+    return [[gen_coord(rng) for _ in range(d)] for _ in range(n)]
+
+
+def gen_legacy(rng):
+    """a version-1 or version-2 LJSON document (the exporter cannot write them: the harness writes the file).
+    `defect` names the one thing wrong with it (None = a valid document)"""
+    v = rng.choice([1, 2])
+    d = rng.choice([2, 2, 3, 1, 4])
+    defect = rng.choice([None] * 6 + ["unlabelled", "edge-oob", "dup-label", "empty", "ragged"] +
+                        (["edges-no-label"] if v == 2 else []))
+    names = rng.sample(UNICODE_NAMES, rng.randint(1, 4))
+    if v == 2:
+        n = rng.randint(1, 7)
+        rows = gen_rows(rng, n, d)
+        pairs = [(a, b) for a in range(n) for b in range(n)]
+        conn = rng.choice([None, "null", "list", "list"])
+        edges = None if conn is None else ("null" if conn == "null" else [list(e) for e in rng.sample(
+            pairs, rng.randint(0, min(len(pairs), 5)))])
+        plain = rng.random() < 0.25
+        labels = []
+        if not plain:
+            masks = [[i for i in range(n) if rng.random() < 0.5] for _ in names]
+            for i in range(n):
+                if not any(i in m for m in masks):
+                    masks[rng.randrange(len(names))].append(i)     # unsorted, repeated indices are fine
+            labels = [[l, m] for l, m in zip(names, masks)]
+        elif edges not in (None, "null"):
+            edges = rng.choice([None, "null"])
+        if defect == "unlabelled" and labels:
+            k = rng.randrange(n)
+            labels = [[l, [i for i in m if i != k]] for l, m in labels]
+        elif defect == "edge-oob" and labels:
+            edges = [[0, n + rng.randint(0, 2)]]
+        elif defect == "dup-label" and len(labels) > 1:
+            labels[-1][0] = labels[0][0]
+        elif defect == "empty":
+            rows = []
+        elif defect == "ragged" and n > 1 and d > 1:
+            rows[-1] = rows[-1][:-1]
+        elif defect == "edges-no-label":
+            labels, edges = [], [[0, n - 1]]
+        else:
+            defect = None
+        return {"kind": "legacy", "version": 2, "rows": rows, "edges": edges, "labels": labels, "defect": defect}
+    groups = []
+    for l in names:
+        n = rng.randint(0 if rng.random() < 0.1 else 1, 4)
+        pairs = [(a, b) for a in range(n) for b in range(n)]
+        conn = rng.choice([None, "null", "list", "list"])
+        edges = None if conn is None else ("null" if conn == "null" else [list(e) for e in rng.sample(
+            pairs, rng.randint(0, min(len(pairs), 4)))])
+        groups.append({"label": l, "rows": gen_rows(rng, n, d), "edges": edges})
+    total = sum(len(g["rows"]) for g in groups)
+    if defect == "edge-oob" and total:
+        groups[-1]["edges"] = [[0, len(groups[-1]["rows"]) + rng.randint(0, 1)]]
+    elif defect == "dup-label" and len(groups) > 1 and groups[0]["rows"]:
+        groups[-1]["label"] = groups[0]["label"]
+    elif defect == "empty":
+        groups = [dict(g, rows=[], edges=None) for g in groups][:rng.randint(0, 2)]
+    elif defect == "ragged" and total > 1 and d > 1:
+        g = [g for g in groups if g["rows"]][-1]
+        g["rows"][-1] = g["rows"][-1][:-1]
+    else:
+        defect = None
+    if total == 0:
+        defect = "empty"
+    return {"kind": "legacy", "version": 1, "groups": groups, "defect": defect}
+
+
+def legacy_document(p):
+    def pt(row):
+        return [None if v is None else v for v in row]
+    if p["version"] == 2:
+        lm = {"points": [pt(r) for r in p["rows"]]}
+        if p["edges"] is not None:
+            lm["connectivity"] = None if p["edges"] == "null" else p["edges"]
+        return {"version": 2, "labels": [{"label": l, "mask": m} for l, m in p["labels"]], "landmarks": lm}
+    gs = []
+    for g in p["groups"]:
+        o = {"label": g["label"], "landmarks": [{"point": pt(r)} for r in g["rows"]]}
+        if g["edges"] is not None:
+            o["connectivity"] = None if g["edges"] == "null" else g["edges"]
+        gs.append(o)
+    return {"version": 1, "groups": gs}
+
+
+def legacy_expected(p):
+    """what the document says, independent of menpo and of the model: (rows, undirected edge set, ordered masks)"""
+    if p["version"] == 2:
+        rows = p["rows"]
+        n = len(rows)
+        edges = [] if p["edges"] in (None, "null") else p["edges"]
+        labels = [[l, [1 if i in m else 0 for i in range(n)]] for l, m in p["labels"]]
+    else:
+        rows, edges, labels, off = [], [], [], 0
+        total = sum(len(g["rows"]) for g in p["groups"])
+        for g in p["groups"]:
+            k = len(g["rows"])
+            rows += g["rows"]
+            if g["edges"] not in (None, "null"):
+                edges += [[a + off, b + off] for a, b in g["edges"]]
+            labels.append([g["label"], [1 if off <= i < off + k else 0 for i in range(total)]])
+            off += k
+    return rows, {(min(a, b), max(a, b)) for a, b in edges}, labels
+
+
+def legacy_request(p, lid):
+    def rows_tok(rows):
+        out = [str(len(rows))]
+        for r in rows:
+            out += [str(len(r))] + [fcoord(v) for v in r]
+        return out
+
+    def edges_tok(e):
+        if e is None:
+            return ["-2"]
+        if e == "null":
+            return ["-1"]
+        return [str(len(e))] + [str(x) for pr in e for x in pr]
+    if p["version"] == 2:
+        req = rows_tok(p["rows"]) + edges_tok(p["edges"]) + [str(len(p["labels"]))]
+        for l, m in p["labels"]:
+            req += [lid.setdefault(l, "l%d" % len(lid)), str(len(m))] + [str(i) for i in m]
+        return "ljson2", " ".join(req)
+    req = [str(len(p["groups"]))]
+    for g in p["groups"]:
+        req += [lid.setdefault(g["label"], "l%d" % len(lid))] + rows_tok(g["rows"]) + edges_tok(g["edges"])
+    return "ljson1", " ".join(req)
+
+
+def case_legacy(run, p):
+    import numpy as np
+    import menpo.io as mio
+    ctx = run.ctx
+    rp = rp_of(p)
+    site = "C16/ljson-v%d" % p["version"]
+    rows, want_edges, want_labels = legacy_expected(p)
+    ctx.case(("legacy", json.dumps(p, sort_keys=True)), nontrivial=len(rows) > 1,
+             sample={"kind": "legacy", "version": p["version"], "defect": p["defect"], "n": len(rows)})
+    ctx.count("legacy:v%d:%s" % (p["version"], p["defect"] or "valid"))
+    exc = None
+    with Scratch() as d:
+        fp = os.path.join(d, "old.v%d.ljson" % p["version"])
+        with open(fp, "w") as f:
+            json.dump(legacy_document(p), f)
+        try:
+            back = mio.import_landmark_file(fp)
+        except Exception as e:                            # noqa: BLE001
+            exc = e
+    lid = {}
+    op, req = legacy_request(p, lid)
+    if exc is not None:
+        ctx.check(p["defect"] is not None, site, "raises",
+                  "import of a valid version-%d document raised %s: %s" % (p["version"], type(exc).__name__, exc), rp)
+
+        def cmp_err(rep, exc=exc):
+            parts = rep.split()
+            if parts[0] != "err" or type(exc).__name__ not in ERR_CLASSES.get(parts[1], ()):
+                return "model %r vs implementation %s: %s" % (rep[:200], type(exc).__name__, exc)
+            return None
+        run.ask(op, req, cmp_err, rp)
+        return
+    # ---- oracle: what the document says is what is imported, and every imported group is well formed
+    ctx.check(list(back.keys()) == ["LJSON"], site + "/groups", "names-differ",
+              "a version-%d document came back with groups %r" % (p["version"], list(back.keys())), rp)
+    b = list(back.values())[0]
+    want = np.array([[np.nan if v is None else v for v in r] for r in rows], dtype=float)
+    ctx.check(p["defect"] in (None, "dup-label"), site, "accepted-defective-document",
+              "a version-%d document with defect %r was imported" % (p["version"], p["defect"]), rp)
+    ctx.check(b.points.shape == want.shape and bool(np.array_equal(b.points, want, equal_nan=True)), site + "/points",
+              "coordinates-differ", "coordinates %r came back as %r" % (want.tolist(), b.points.tolist()), rp)
+    be = [tuple(sorted(e)) for e in getattr(b, "edges", np.zeros((0, 2), int)).tolist()]
+    ctx.check(set(be) == want_edges and len(be) == len(set(be)), site + "/edges", "edge-set-differs",
+              "undirected edges %r came back as %r" % (sorted(want_edges), sorted(be)), rp)
+    if p["defect"] is None:
+        ctx.check(label_masks(b) == want_labels, site + "/labels", "labels-differ",
+                  "ordered labels %r came back as %r" % (want_labels, label_masks(b)), rp)
+    lm = label_masks(b)
+    exp = ["1", "LJSON", type(b).__name__, str(b.n_points), str(b.n_dims)] + [fcoord(float(v)) for v in b.points.ravel()]
+    bes = sorted(tuple(e) for e in getattr(b, "edges", np.zeros((0, 2), int)).tolist())
+    exp += [str(len(bes))] + [str(x) for e in bes for x in e] + [str(len(lm))]
+    for l, m in lm:
+        exp += [lid.get(l, "l???")] + [str(int(x)) for x in m]
+    run.ask(op, req, "ok " + " ".join(exp), rp)
+
+
 # --------------------------------------------------------------------------------------------- pts
 
 def gen_pts(rng):
@@ -410,7 +851,7 @@ def gen_pts(rng):
                 row.append(float(rng.randint(-3, 600)))
         pts.append(row)
     cls = rng.choice(["PointCloud", "PointCloud", "PointUndirectedGraph", "TriMesh"])
-    return {"kind": "pts", "cls": cls, "points": pts, "file": rng.choice(["s.pts", "img.v2.pts", "x.PTS"]),
+    return {"kind": "pts", "cls": cls, "points": pts, "file": rng.choice(["s.pts", "img.v2.pts", "x.PTS", "s.ljson.pts", "a.gz.b.pts", "x.pkl.gz.PTS", "m.tar.Pts"]),
             "as_path": rng.random() < 0.5}
 
 
@@ -454,6 +895,73 @@ def case_pts(run, p):
             return "model %r vs implementation %r" % (mv, iv)
         return None
     run.ask("pts", "%d %s" % (n, " ".join(fq(v) for row in pts for v in row)), cmp, rp)
+
+
+def gen_ptsn(rng):
+    d = rng.choice([2, 2, 3, 3, 4, 1])
+    n = rng.randint(1, 8)
+    rows = []
+    for _ in range(n):
+        row = []
+        for _ in range(d):
+            r = rng.random()
+            row.append(None if r < 0.15 else common.dyadic(rng, 4096, 6) if r < 0.7 else
+                       rng.randint(-50, 500) + rng.choice([1, 3, 5, 7, 9, 11, 13, 15]) / 16.0)
+        rows.append(row)
+    return {"kind": "ptsn", "dim": d, "rows": rows, "file": rng.choice(["s.pts", "a.gz.b.PTS", "x.ljson.pts"]),
+            "cls": rng.choice(["PointCloud", "PointCloud", "PointUndirectedGraph"])}
+
+
+def case_ptsn(run, p):
+    """points format of 2-D / 3-D / n-D shapes with NaN coordinates (the format holds two axes: further axes are not
+    written - correspondence only; the property's clause is checked on the axes the format has)"""
+    import numpy as np
+    import menpo.io as mio
+    ctx = run.ctx
+    rp = rp_of(p)
+    site = "C16/pts"
+    rows, d = p["rows"], p["dim"]
+    n = len(rows)
+    ctx.case(("ptsn", json.dumps(p, sort_keys=True)), nontrivial=n > 1, sample={"kind": "ptsn", "dim": d, "n": n})
+    ctx.count("pts:%dD:%s" % (d, "with-nan" if any(v is None for r in rows for v in r) else "complete"))
+    g = {"cls": p["cls"], "dim": d, "points": rows, "edges": [[0, n - 1]] if n > 1 else []}
+    exc = None
+    with Scratch() as sd:
+        fp = os.path.join(sd, p["file"])
+        try:
+            mio.export_landmark_file(build_shape(g), fp)
+            b = mio.import_landmark_file(fp)["PTS"].points
+        except Exception as e:                      # noqa: BLE001
+            exc = e
+    if exc is not None:
+        ctx.check(d < 2, site, "raises", "points-format round trip of a %d-D shape raised %s: %s" % (d, type(exc).__name__, exc), rp)
+        run.ask("ptsn", " ".join(legacy_rows_tok(rows)), "err", rp)
+        return
+    want = np.array([[np.nan if v is None else v for v in r[:2]] for r in rows], dtype=float)
+    ok = b.shape == want.shape and bool(np.array_equal(np.isnan(b), np.isnan(want))) and bool(
+        np.all(np.abs(np.nan_to_num(b) - np.nan_to_num(want)) <= 0.0005 + 1e-9))
+    ctx.check(ok, site, "beyond-three-decimals",
+              "the first two axes %r came back as %r (NaN moved, more than 0.0005 away, or another shape)" % (
+                  want.tolist(), b.tolist()), rp)
+
+    def cmp(rep, b=b, n=n):
+        parts = rep.split()
+        if parts[0] != "ok" or int(parts[1]) != n or len(parts) != 2 + 2 * n or b.shape != (n, 2):
+            return "model %r vs implementation %r" % (rep[:200], b.tolist())
+        for a, c in zip(parts[2:], b.ravel().tolist()):
+            if (a == "nan") != (c != c):
+                return "NaN pattern: model %r vs implementation %r" % (parts[2:], b.tolist())
+            if a != "nan" and not common.close(float(F(a)), c, max(abs(c), 1.0), 1e-9):
+                return "model %r vs implementation %r" % (parts[2:], b.tolist())
+        return None
+    run.ask("ptsn", " ".join(legacy_rows_tok(rows)), cmp, rp)
+
+
+def legacy_rows_tok(rows):
+    out = [str(len(rows))]
+    for r in rows:
+        out += [str(len(r))] + [fcoord(v) for v in r]
+    return out
 
 
 # --------------------------------------------------------------------------------------------- pickle
@@ -611,11 +1119,26 @@ def same_state(a, b, memo=None, where="obj"):
     return None
 
 
+PICKLE_STEMS = ["m", "model.v1", "a.b", ".hidden", "scan.tar.gz.v2", "a.gz.b", "x.pkl.gz.copy", "y.PKL", "z.Gz.1", "w.pkl",
+                "q.tar.gz", "GZ.gz.Gz", "r..gz.s"]
+
+
+def recase(ext, k):
+    """one of four spellings of an extension: lower, upper, capitalised components, alternating"""
+    if k == 0:
+        return ext
+    if k == 1:
+        return ext.upper()
+    if k == 2:
+        return ".".join(c.capitalize() for c in ext.split("."))
+    return "".join(c.upper() if i % 2 else c for i, c in enumerate(ext))
+
+
 def gen_pickle(rng, recipe=None):
     names = list(pickle_recipes().keys())
     return {"kind": "pickle", "recipe": recipe or rng.choice(names), "seed": rng.randrange(10 ** 6),
             "gz": rng.random() < 0.5, "protocol": rng.choice([2, 2, 3, 4]),
-            "file": rng.choice(["m", "model.v1", "a.b", ".hidden"]), "as_path": rng.random() < 0.5}
+            "file": rng.choice(PICKLE_STEMS), "case": rng.randrange(4), "as_path": rng.random() < 0.5}
 
 
 def case_pickle(run, p):
@@ -637,8 +1160,10 @@ def case_pickle(run, p):
         ctx.notes.setdefault("pickle_construction_failed", {})[p["recipe"]] = "%s: %s" % (type(e).__name__, e)
         return
     with Scratch() as d:
-        fp = os.path.join(d, p["file"] + (".pkl.gz" if p["gz"] else ".pkl"))
+        fp = os.path.join(d, p["file"] + recase(".pkl.gz" if p["gz"] else ".pkl", p.get("case", 0)))
         fpa = Path(fp) if p.get("as_path") else fp
+        ctx.count("pickle:name:" + ("stem-with-extension-like-components" if any(
+            c.lower() in ("gz", "pkl", "tar") for c in p["file"].split(".")[1:]) else "plain-stem"))
         try:
             mio.export_pickle(obj, fpa, protocol=p["protocol"])
             raw = open(fp, "rb").read(2)
@@ -653,6 +1178,139 @@ def case_pickle(run, p):
     diff2 = same_state(ref, obj)
     ctx.check(diff2 is None, site + "/source", "export-mutated-object",
               "exporting %s changed the exported object itself: %s" % (p["recipe"], diff2), rp)
+
+
+# --------------------------------------------------------------------------------------------- pickle: object trees
+
+def _ident(x):
+    return x
+
+
+PT_CLASSES = ["PointCloud", "Image", "Translation", "LazyList"]
+
+
+def gen_ptree(rng, depth=0, top=None):
+    """a random object tree in the prefix form of the model (nested lists): menpo objects with extra attributes
+    (a concrete or pure `path` among them), paths, lists / tuples / dicts of them"""
+    kind = top or rng.choice(["A", "A", "P", "O", "O", "L", "T", "D"] if depth < 3 else ["A", "P"])
+    if kind == "A":
+        return ["A", rng.randrange(1000)]
+    if kind == "P":
+        return ["P", int(rng.random() < 0.6), (["/"] if rng.random() < 0.5 else []) + rng.sample(
+            ["a", "b.png", "x", "c.d", "model.pkl"], rng.randint(1, 3))]
+    if kind in ("L", "T"):
+        return [kind, [gen_ptree(rng, depth + 1) for _ in range(rng.choice([0, 1, 1, 2, 3]))]]
+    if kind == "D":
+        return ["D", [[k, gen_ptree(rng, depth + 1)] for k in rng.sample(["k", "a", "z", "path", "q"], rng.randint(0, 3))]]
+    names = rng.sample(["c16_a", "path", "c16_b"], rng.randint(0, 3))
+    cls = rng.choice(PT_CLASSES)
+    fields = [[n, gen_ptree(rng, depth + 1, top=("P" if n == "path" and rng.random() < 0.8 else None))] for n in names]
+    if cls == "LazyList":
+        fields = [["c16_items", ["L", [gen_ptree(rng, depth + 1) for _ in range(rng.randint(0, 2))]]]] + fields
+    return ["O", cls, fields]
+
+
+def ptree_build(t):
+    import numpy as np
+    from functools import partial
+    from pathlib import Path, PurePosixPath
+    from menpo.shape import PointCloud
+    from menpo.image import Image
+    from menpo.transform import Translation
+    from menpo.base import LazyList
+    k = t[0]
+    if k == "A":
+        return np.array([t[1]]) if t[1] % 2 else t[1]
+    if k == "P":
+        return (Path if t[1] else PurePosixPath)(*t[2])
+    if k == "L":
+        return [ptree_build(x) for x in t[1]]
+    if k == "T":
+        return tuple(ptree_build(x) for x in t[1])
+    if k == "D":
+        return {kk: ptree_build(v) for kk, v in t[1]}
+    cls, fields = t[1], t[2]
+    if cls == "LazyList":
+        o = LazyList([partial(_ident, ptree_build(x)) for x in fields[0][1][1]])
+        fields = fields[1:]
+    else:
+        o = {"PointCloud": lambda: PointCloud(np.zeros((2, 2))), "Image": lambda: Image(np.zeros((1, 2, 2))),
+             "Translation": lambda: Translation(np.array([1.0, 2.0]))}[cls]()
+    for n, v in fields:
+        setattr(o, n, ptree_build(v))
+    return o
+
+
+def ptree_abstract(x):
+    """the tree of a real object, in the model's prefix form"""
+    import numpy as np
+    from pathlib import Path, PurePath
+    from menpo.base import LazyList
+    if isinstance(x, np.ndarray):
+        return ["A", int(x.ravel()[0])]
+    if isinstance(x, (int, np.integer)):
+        return ["A", int(x)]
+    if isinstance(x, PurePath):
+        return ["P", int(isinstance(x, Path)), list(x.parts)]
+    if isinstance(x, list):
+        return ["L", [ptree_abstract(v) for v in x]]
+    if isinstance(x, tuple):
+        return ["T", [ptree_abstract(v) for v in x]]
+    if isinstance(x, dict):
+        return ["D", [[k, ptree_abstract(v)] for k, v in x.items()]]
+    fields = []
+    if isinstance(x, LazyList):
+        fields.append(["c16_items", ["L", [ptree_abstract(v) for v in x]]])
+    fields += [[k, ptree_abstract(v)] for k, v in x.__dict__.items() if k == "path" or k.startswith("c16_")]
+    return ["O", type(x).__name__, fields]
+
+
+def ptree_tokens(t):
+    k = t[0]
+    if k == "A":
+        return ["A", str(t[1])]
+    if k == "P":
+        return ["P", str(t[1]), str(len(t[2]))] + list(t[2])
+    if k in ("L", "T"):
+        return [k, str(len(t[1]))] + [y for x in t[1] for y in ptree_tokens(x)]
+    if k == "D":
+        return ["D", str(len(t[1]))] + [y for kk, v in t[1] for y in [kk] + ptree_tokens(v)]
+    return ["O", t[1], str(len(t[2]))] + [y for kk, v in t[2] for y in [kk] + ptree_tokens(v)]
+
+
+def case_ptree(run, p):
+    """export_pickle -> import_pickle of a random object tree: the tree that comes back against the model of
+    pickle_paths_as_pure + _import (attach_path, unwrapping); oracle on top-level menpo objects: equal state apart from
+    the recorded path; Path.__reduce__ restored"""
+    import pathlib
+    import menpo.io as mio
+    ctx = run.ctx
+    rp = rp_of(p)
+    site = "C16/pickle"
+    t = p["tree"]
+    ctx.case(("ptree", json.dumps(p, sort_keys=True)), nontrivial=len(json.dumps(t)) > 30,
+             sample={"kind": "ptree", "top": t[0], "gz": p["gz"]})
+    ctx.count("ptree:top:" + (t[1] if t[0] == "O" else t[0]))
+    default_reduce = pathlib.Path.__reduce__
+    obj = ptree_build(t)
+    with Scratch() as d:
+        fp = os.path.join(d, "a.gz.tree" + (".pkl.gz" if p["gz"] else ".PKL"))
+        try:
+            mio.export_pickle(obj, fp, protocol=p["protocol"])
+            back = mio.import_pickle(fp)
+        except Exception as e:                                   # noqa: BLE001
+            ctx.fail(site, "raises", "pickle round trip of an object tree raised %s: %s" % (type(e).__name__, e), rp)
+            return
+        finally:
+            ctx.check(pathlib.Path.__reduce__ is default_reduce, site + "/reduce-hook", "not-restored",
+                      "pathlib.Path.__reduce__ is still patched after export_pickle", rp)
+            pathlib.Path.__reduce__ = default_reduce
+        file_tree = ["P", 1, list(pathlib.Path(fp).parts)]
+    if t[0] == "O":                 # the property's quantifier: a menpo object
+        diff = same_state(obj, back)
+        ctx.check(diff is None, site, "state-differs", "an object tree came back with different state: %s" % diff, rp)
+    got = ptree_abstract(back)
+    run.ask("ptree", " ".join(ptree_tokens(file_tree) + ptree_tokens(t)), "ok " + " ".join(ptree_tokens(got)), rp)
 
 
 # --------------------------------------------------------------------------------------------- images
@@ -692,20 +1350,21 @@ def lossless_codecs(run):
 
 
 def gen_image8(rng, fmts, source=None, all256=None):
-    source = source or rng.choice(["L", "L", "RGB", "RGB", "RGBA", "1", "mem-u8"])
+    source = source or rng.choice(["L", "L", "RGB", "RGB", "RGBA", "1", "mem-u8", "mem-bool"])
     all256 = (rng.random() < 0.4) if all256 is None else all256
     h, w = (16, 16) if all256 else (rng.randint(1, 12), rng.randint(1, 12))
     return {"kind": "image8", "source": source, "all256": bool(all256), "h": h, "w": w, "seed": rng.randrange(10 ** 6),
             "fmt": rng.choice(fmts), "src_fmt": rng.choice([f for f in fmts if f in (".png", ".bmp", ".tif")] or fmts),
-            "as_path": rng.random() < 0.5, "copy_between": rng.random() < 0.3}
+            "as_path": rng.random() < 0.5, "copy_between": rng.random() < 0.3,
+            "stem": rng.choice(["out.v2", "y.jpg", "a.gz.b", "scan.tar.gz", "x.pkl.copy", "UP.JPG", "i"]), "case": rng.randrange(4)}
 
 
 def image8_pixels(p):
     import numpy as np
     rs = np.random.RandomState(p["seed"])
-    nch = {"L": 1, "1": 1, "RGB": 3, "RGBA": 3, "mem-u8": rs.choice([1, 3])}[p["source"]]
+    nch = {"L": 1, "1": 1, "RGB": 3, "RGBA": 3, "mem-u8": rs.choice([1, 3]), "mem-bool": 1}[p["source"]]
     h, w = p["h"], p["w"]
-    if p["source"] == "1":
+    if p["source"] in ("1", "mem-bool"):
         return (rs.rand(1, h, w) > 0.5).astype(np.uint8) * 255
     if p["all256"]:
         return np.stack([rs.permutation(256).reshape(16, 16) for _ in range(nch)]).astype(np.uint8)
@@ -727,11 +1386,14 @@ def case_image8(run, p):
     ctx.count("image8:source:" + p["source"])
     ctx.count("image8:format:" + p["fmt"])
     site = "C16/image8"
-    through_float = p["source"] != "mem-u8"
+    through_float = p["source"] not in ("mem-u8", "mem-bool")
     with Scratch() as d:
         try:
             if p["source"] == "mem-u8":
                 im = Image(px.copy())
+            elif p["source"] == "mem-bool":
+                from menpo.image import BooleanImage
+                im = BooleanImage(px[0] > 0)
             else:
                 src = os.path.join(d, "src" + (".png" if p["source"] in ("RGBA", "1") else p["src_fmt"]))
                 if p["source"] == "L":
@@ -748,7 +1410,7 @@ def case_image8(run, p):
             ctx.count("image8:class:" + type(im).__name__)
             if p.get("copy_between"):
                 im = im.copy()
-            out = os.path.join(d, "out.v2" + p["fmt"])
+            out = os.path.join(d, p.get("stem", "out.v2") + recase(p["fmt"], p.get("case", 0)))
             mio.export_image(im, Path(out) if p.get("as_path") else out)
             back = mio.import_image(out, landmark_resolver=None, normalize=False)
             got = np.asarray(back.pixels)
@@ -779,7 +1441,7 @@ def case_image8(run, p):
 def gen_imagef(rng, fmts):
     return {"kind": "imagef", "dtype": rng.choice(["float64", "float64", "float32"]), "channels": rng.choice([1, 3]),
             "h": rng.randint(1, 10), "w": rng.randint(1, 10), "seed": rng.randrange(10 ** 6), "fmt": rng.choice(fmts),
-            "masked": rng.random() < 0.25}
+            "masked": rng.random() < 0.25, "layout": rng.choice(["C", "C", "F", "view", "view-nocopy"])}
 
 
 def case_imagef(run, p):
@@ -802,7 +1464,20 @@ def case_imagef(run, p):
     ctx.count("imagef:format:" + p["fmt"])
     with Scratch() as d:
         try:
-            im = MaskedImage(x.copy(), mask=rs.rand(p["h"], p["w"]) > 0.4) if p.get("masked") else Image(x.copy())
+            lay = p.get("layout", "C")
+            if lay == "F":
+                arr = np.asfortranarray(x)
+            elif lay.startswith("view"):       # a strided, reversed view into a larger array
+                big = np.full((x.shape[0], 2 * x.shape[1] + 1, 3 * x.shape[2] + 2), 0.5, dtype=x.dtype)
+                big[:, 1::2, ::-3][:, :x.shape[1], :x.shape[2]] = x
+                arr = big[:, 1::2, ::-3][:, :x.shape[1], :x.shape[2]]
+            else:
+                arr = x.copy()
+            ctx.count("imagef:layout:" + lay)
+            with __import__("warnings").catch_warnings():
+                __import__("warnings").simplefilter("ignore")
+                im = (MaskedImage(arr, mask=rs.rand(p["h"], p["w"]) > 0.4, copy=lay != "view-nocopy") if p.get("masked")
+                      else Image(arr, copy=lay != "view-nocopy"))
             out = os.path.join(d, "f" + p["fmt"])
             mio.export_image(im, out)
             back = mio.import_image(out, landmark_resolver=None)
@@ -819,6 +1494,65 @@ def case_imagef(run, p):
     ctx.check(bool(np.array_equal(im.pixels, x)), site + "/source", "export-mutated-image", "exporting changed the image", rp)
     for a, b in zip(m.ravel().tolist(), np.asarray(raw.pixels).ravel().tolist()):
         run.q8_obs.setdefault(int(a), set()).add(int(b))
+
+
+def case_range(run, p):
+    """every level of an integer range 0 .. N (uint8 / uint16) through the real normalize_pixels_range ->
+    denormalize_pixels_range and through Image.as_PILImage(out_dtype=...); compared, level by level, with the exact
+    53-bit model (the one `range_roundtrip_of_rounding` / `u16_roundtrip_round` are about), with Lean's Float, and with
+    numpy's own truncating cast (so the three arithmetics are validated against each other on all 65 536 + 256 values)"""
+    import numpy as np
+    from menpo.image import Image
+    import menpo.image.base as mib
+    ctx = run.ctx
+    rp = rp_of(p)
+    N = p["N"]
+    dt = {255: np.uint8, 65535: np.uint16}[N]
+    site = "C16/range/%s" % np.dtype(dt).name
+    ctx.case(("range", N), nontrivial=True, sample={"kind": "range", "N": N})
+    ctx.count("range:%s:all-%d-levels" % (np.dtype(dt).name, N + 1))
+    levels = np.arange(N + 1, dtype=dt)
+    obs = {}
+    try:
+        x = mib.normalize_pixels_range(levels)
+        obs["functions"] = np.asarray(mib.denormalize_pixels_range(x, dt))
+        side = int(round((N + 1) ** 0.5))
+        im = Image(x.reshape(1, side, side).copy())
+        obs["as_PILImage"] = np.asarray(im.as_PILImage(out_dtype=dt)).reshape(-1)
+    except Exception as e:                              # noqa: BLE001
+        ctx.fail(site, "raises", "normalise -> denormalise of all %d-level data raised %s: %s" % (N + 1, type(e).__name__, e), rp)
+        return
+    lost_impl = {}
+    for how, got in obs.items():
+        bad = np.nonzero(got.astype(np.int64) != levels.astype(np.int64))[0].tolist()
+        lost_impl[how] = bad
+        if N == 255:       # the property's clause; sixteen-bit data is decided by the model tie
+            ctx.check(not bad, SITE_U8 if all(b in TRUNC24 for b in bad) else site, PAT_U8 if all(
+                b in TRUNC24 for b in bad) else "levels-lost",
+                "eight-bit levels %r do not survive normalise -> denormalise (%s)" % (bad[:24], how), rp)
+    numpy_trunc = np.nonzero((levels * (1.0 / N) * float(N)).astype(dt) != levels)[0].tolist()
+    numpy_round = np.nonzero(np.round(levels * (1.0 / N) * float(N)).astype(dt) != levels)[0].tolist()
+
+    def cmp(rep, lost_impl=lost_impl, numpy_trunc=numpy_trunc, numpy_round=numpy_round):
+        def two(txt):
+            t = [int(v) for v in txt.split()]
+            a = t[1:1 + t[0]]
+            b = t[2 + t[0]:]
+            return a, b
+        soft, _, flt = rep[3:].partition(" | ")
+        (st, sr), (ft, fr) = two(soft), two(flt)
+        if (st, sr) != (numpy_trunc, numpy_round):
+            return "exact 53-bit model vs numpy float64: lost levels (trunc, round) %r vs %r" % (
+                (st[:8], sr[:8]), (numpy_trunc[:8], numpy_round[:8]))
+        if (ft, fr) != (numpy_trunc, numpy_round):
+            return "Lean Float vs numpy float64: lost levels (trunc, round) %r vs %r" % (
+                (ft[:8], fr[:8]), (numpy_trunc[:8], numpy_round[:8]))
+        for how, bad in lost_impl.items():
+            if bad != sr and bad != st:
+                return "%s loses levels %r; model: rounding loses %r, truncation %r" % (how, bad[:8], sr[:8], st[:8])
+        return None
+    run.ask("lost", "%d 0 %d" % (N, N + 1), cmp, rp)
+    ctx.notes["range_%d_lost_levels_observed" % N] = {k: v[:30] for k, v in lost_impl.items()}
 
 
 def case_mode(run, p):
@@ -855,14 +1589,65 @@ BAD_NAMES = {
     "pickle": ["notes.txt", "m.pkl.", "a.gz", "noext", "a.pkl.bz2"],
     "video": [],
 }
-N_SPELL = 7
+N_SPELL = 14
+ENV_NAMES = ("HOME", "C16ROOT", "C16SUB")
 
 
 def spell(d, sub, name, k):
+    """one of the spellings of <d>/<sub>/<name> (HOME = C16ROOT = <d>, C16SUB = <sub>, C16UNSET not set, cwd = <d>)"""
     base = os.path.basename(d)
     return ["%s/%s/%s" % (d, sub, name), "%s//%s/./%s" % (d, sub, name), "%s/%s/../%s/%s" % (d, sub, sub, name),
             "%s/%s" % (sub, name), "./%s//%s" % (sub, name), "%s/../%s/%s" % (sub, sub, name),
-            "../%s/%s/%s" % (base, sub, name)][k]
+            "../%s/%s/%s" % (base, sub, name),
+            "~/%s/%s" % (sub, name), "$C16ROOT/%s/%s" % (sub, name), "${C16ROOT}/$C16SUB/%s" % name,
+            "~//./%s/x/../%s" % (sub, name), "%s/$C16UNSET/../%s" % (sub, name), "~c16nosuchuser/../%s/%s" % (sub, name),
+            "./~/%s/%s" % (sub, name)][k]
+
+
+class EnvVars:
+    """os.environ entries set for the duration of a case and restored afterwards"""
+
+    def __init__(self, **kv):
+        self.kv = kv
+
+    def __enter__(self):
+        self.old = {k: os.environ.get(k) for k in self.kv}
+        self.old["C16UNSET"] = os.environ.pop("C16UNSET", None)
+        os.environ.update(self.kv)
+
+    def __exit__(self, *exc):
+        for k, v in self.old.items():
+            if v is None:
+                os.environ.pop(k, None)
+            else:
+                os.environ[k] = v
+        return False
+
+
+class StubVideo:
+    """ffmpeg is an external program that is not installed here: while a video history runs, the callables in
+    menpo.io.output.base.video_types are replaced by one that writes bytes to the path it is handed (what ffmpeg
+    does), so that the path `_export_paths_only` hands on is observable.  Restored afterwards."""
+
+    def __enter__(self):
+        import menpo.io.output.base as ob
+        self.tbl = ob.video_types
+        self.saved = dict(self.tbl)
+
+        calls = []
+
+        def stub(images, out_path, **kwargs):
+            calls.append(1)
+            with open(str(out_path), "wb") as f:
+                f.write(("video no. %d of %d frames, kwargs %r" % (len(calls), len(images), sorted(kwargs))).encode())
+        for k in self.tbl:
+            self.tbl[k] = stub
+        return self
+
+    def __exit__(self, *exc):
+        self.tbl.clear()
+        self.tbl.update(self.saved)
+        return False
 
 
 def gen_guard(rng, exporter=None):
@@ -879,9 +1664,10 @@ def gen_guard(rng, exporter=None):
         if exporter in ("landmark", "image") and rng.random() < 0.2:
             ue = rng.choice([".png", "ljson", ".PTS", "PNG", ".tif", ".ljson"])
         ops.append({"name": nm, "spell": rng.randrange(N_SPELL), "as_path": rng.random() < 0.5,
-                    "overwrite": (False if exporter == "video" else rng.random() < 0.4), "userext": ue})
+                    "overwrite": rng.random() < (0.25 if exporter == "video" else 0.4), "userext": ue})
     return {"kind": "guard", "exporter": exporter, "sub": rng.choice(["sub", "out.d", "x y"]) if exporter != "video" else "sub",
-            "precreate": [names[0]] if (exporter == "video" or rng.random() < 0.3) else [], "ops": ops}
+            "precreate": [names[0]] if rng.random() < (0.6 if exporter == "video" else 0.3) else [],
+            "tilde_dir": rng.random() < 0.5, "ops": ops}
 
 
 def export_object(exporter, i):
@@ -903,6 +1689,7 @@ def norm_ext(e):
 
 
 def case_guard(run, p):
+    import contextlib
     import menpo.io as mio
     from menpo.io.exceptions import OverwriteError
     from pathlib import Path
@@ -916,15 +1703,22 @@ def case_guard(run, p):
              sample={"kind": "guard", "exporter": ex, "ops": [(o["name"], o["spell"], o["overwrite"]) for o in p["ops"]]})
     ctx.count("guard:exporter:" + ex)
     outcomes = []
-    with Scratch() as d:
+    with Scratch() as d, EnvVars(HOME=d, C16ROOT=d, C16SUB=p["sub"]), (
+            StubVideo() if ex == "video" else contextlib.nullcontext()):
         sub = p["sub"]
         os.makedirs(os.path.join(d, sub))
+        os.makedirs(os.path.join(d, "~", sub))          # a directory literally called '~' (never the target)
         os.chdir(d)
         written_hash = {}
+        pre = []
         for j, nm in enumerate(p["precreate"]):
-            with open(os.path.join(d, sub, nm), "wb") as f:
-                f.write(b"pre-existing bytes %d\n" % j)
-            written_hash[1000 + j] = (os.path.join(sub, nm), hashlib.sha256(b"pre-existing bytes %d\n" % j).hexdigest())
+            where = [os.path.join(sub, nm)] + ([os.path.join("~", sub, nm)] if p.get("tilde_dir") else [])
+            for jj, rel in enumerate(where):
+                body = b"pre-existing bytes %d %d\n" % (j, jj)
+                with open(os.path.join(d, rel), "wb") as f:
+                    f.write(body)
+                written_hash[1000 + len(pre)] = (rel, hashlib.sha256(body).hexdigest())
+                pre.append(rel)
         for i, o in enumerate(p["ops"]):
             s = spell(d, sub, o["name"], o["spell"])
             target = os.path.join(sub, o["name"])
@@ -947,58 +1741,70 @@ def case_guard(run, p):
             after = snapshot(d)
             outcomes.append(out)
             step = dict(rp, failing_op=i, spelling=s, outcome=out)
+            changed = sorted(k for k in set(before) | set(after) if before.get(k) != after.get(k))
             # ---- oracle (bytes on disk; independent of the model)
+            if not o["overwrite"]:
+                # whatever the spelling is taken to mean: with overwriting not requested no existing file may change
+                lost = [k for k in before if after.get(k) != before[k]]
+                ctx.check(not lost, site, "clobbered",
+                          "export to %r (%s, overwrite not requested) ended with %r and changed the EXISTING file(s) %r"
+                          % (s, "Path" if o["as_path"] else "str", out, lost), step)
             if existed and not o["overwrite"]:
                 ctx.check(after == before, site, "clobbered",
                           "export to the existing %r (spelled %r, overwrite not requested) changed files on disk: %r"
-                          % (target, s, sorted(k for k in set(before) | set(after) if before.get(k) != after.get(k))), step)
+                          % (target, s, changed), step)
                 ctx.check(out == "o", site, "not-refused",
                           "export to the existing %r (spelled %r, overwrite not requested) ended with %r instead of "
                           "OverwriteError" % (target, s, out), step)
             else:
-                others_b = {k: v for k, v in before.items() if k != target}
-                others_a = {k: v for k, v in after.items() if k != target}
-                ctx.check(others_a == others_b, site, "other-file-touched",
-                          "export to %r (spelled %r) changed other files: %r" % (target, s, sorted(
-                              k for k in set(others_b) | set(others_a) if others_b.get(k) != others_a.get(k))), step)
+                others = [k for k in changed if k != target]
+                ctx.check(not others, site, "other-file-touched",
+                          "export to %r (spelled %r as %s) changed other files: %r" % (
+                              target, s, "Path" if o["as_path"] else "str", others), step)
                 ctx.check(out != "o", site, "spurious-overwrite-error",
                           "export to %r raised OverwriteError although %s" % (
                               target, "overwriting was requested" if existed else "the path did not exist"), step)
                 if out != "w":
                     ctx.check(after == before, site, "failed-export-changed-disk",
                               "an export that ended with %r changed files on disk" % out, step)
-            if out == "w" and target in after:
-                written_hash[i] = (target, after[target])
+            if out == "w":
+                for k in changed:
+                    written_hash[i] = (k, after[k]) if k == target or i not in written_hash else written_hash[i]
+                    if k != target:
+                        written_hash[("elsewhere", i)] = (k, after[k])
         final = snapshot(d)
     # ---- model
-    req = [d, str(len(p["precreate"]))] + ["%s/%s" % (sub, nm) for nm in p["precreate"]] + [str(len(p["ops"]))]
-    if " " in sub:      # tokens are space separated: the model sees the same history with the blank replaced
-        req = [x.replace(" ", "_") for x in req]
+    und = lambda x: x.replace(" ", "_")        # tokens are space separated: the model sees the blank replaced
+    req = [und(d), str(len(ENV_NAMES)), "HOME", und(d), "C16ROOT", und(d), "C16SUB", und(sub),
+           str(len(pre))] + [und(x) for x in pre] + [str(len(p["ops"]))]
     for o in p["ops"]:
         ue = o.get("userext", "-")
-        req += [ex, spell(d, sub, o["name"], o["spell"]).replace(" ", "_"), "-" if ue == "-" else norm_ext(ue),
-                "1" if o["overwrite"] else "0"]
+        req += [ex, und(spell(d, sub, o["name"], o["spell"])), "-" if ue == "-" else norm_ext(ue),
+                "1" if o["overwrite"] else "0", "0" if o["as_path"] else "1"]
 
-    def cmp(rep, outcomes=outcomes, final=final, written_hash=written_hash, d=d):
-        head, _, listing = rep.partition(" | ")
-        parts = head.split()
-        if parts[0] != "ok" or len(parts) < 2:
+    def cmp(rep, outcomes=outcomes, final=final, written_hash=written_hash, d=d, run=run):
+        if not rep.startswith("ok "):
             return "model reply %r" % rep[:200]
-        mo = parts[1]
         io = "".join(x[0] for x in outcomes)
-        if mo != io or any(x.startswith("x") for x in outcomes):
-            return "outcomes: model %r vs implementation %r" % (mo, outcomes)
-        toks = listing.split()
-        model_files = {}
-        for a, b in zip(toks[::2], toks[1::2]):
-            model_files[os.path.relpath(a, d.replace(" ", "_"))] = int(b)
+        if any(x.startswith("x") for x in outcomes):
+            return "an export ended with an unexpected exception: %r" % (outcomes,)
         impl_files = {}
         for rel, h in final.items():
             who = [i for i, (t, hh) in written_hash.items() if t == rel and hh == h]
-            impl_files[rel.replace(" ", "_")] = max(who) if who else -1
-        if model_files != impl_files:
-            return "final files (path: number of the export whose bytes it holds): model %r vs implementation %r" % (
-                model_files, impl_files)
+            who = [i[1] if isinstance(i, tuple) else i for i in who]
+            impl_files[und(rel)] = max(who) if who else -1
+        verdicts = []
+        for variant, part in zip(("coded", "checked=written"), rep[3:].split(" || ")):
+            mo, _, listing = part.partition(" | ")
+            toks = listing.split()
+            model_files = {os.path.relpath(a, und(d)): int(b) for a, b in zip(toks[::2], toks[1::2])}
+            verdicts.append((variant, mo.strip() == io and model_files == impl_files, mo.strip(), model_files))
+        ok = [v[0] for v in verdicts if v[1]]
+        if not ok:
+            return "history (outcomes, final files as path: number of the export whose bytes it holds): model %r / %r vs " \
+                   "implementation %r" % (verdicts[0][2:], verdicts[1][2:], (io, impl_files))
+        if len(ok) == 1:
+            run.guard_variants.add(ok[0])
         return None
     run.ask("guard", " ".join(req), cmp, rp)
 
@@ -1034,32 +1840,236 @@ def case_ext(run, p):
     run.ask("ext", "%s %s" % (p["xkind"], p["name"]), obs, rp_of(p))
 
 
+NAME_COMPONENTS = ["pkl", "gz", "PKL", "GZ", "Pkl", "gZ", "tar", "v2", "copy", "ljson", "LJSON", "pts", "Pts", "jpg", "JPG",
+                   "png", "Png", "bmp", "tif", "b", "1", "", "json", "ptsx", "jpx", "abs", "flo", "asf", "lm2"]
+NAME_STEMS = ["scan", "a", "x", "Y", ".hidden", "m..n", "..up", "_"]
+FINAL_EXTS = {"landmark": [".ljson", ".pts"], "pickle": [".pkl", ".pkl.gz"]}
+
+
+def gen_dec(rng, kind, fmts):
+    """a file name whose STEM carries extension-like components, then (mostly) a real extension of the kind in one
+    of four spellings of its case"""
+    finals = FINAL_EXTS.get(kind) or (list(fmts) + [".jpg"])
+    name = rng.choice(NAME_STEMS) + "".join("." + rng.choice(NAME_COMPONENTS) for _ in range(rng.randint(0, 4)))
+    r = rng.random()
+    if r < 0.8:
+        name += recase(rng.choice(finals), rng.randrange(4))
+    elif r < 0.9:
+        name += "." + rng.choice(NAME_COMPONENTS)
+    elif r < 0.95:
+        name += "."
+    return {"kind": "dec", "xkind": kind, "name": name, "as_path": rng.random() < 0.5}
+
+
+DEC_NAMES = {"pickle": ["scan.tar.gz.v2.pkl", "a.gz.b.pkl", "x.gz.PKL.Gz", "a.pkl.gz.pkl", "a.pkl.gz.gz", "U.PKL.GZ", "m.Pkl.gZ",
+                        "a..pkl", ".pkl", "x.gz.pkl.gz", "GZ.gz.pkl", "a.gz", "a.pkl.", "a.tar.gz"],
+             "landmark": ["x.pkl.copy.ljson", "x.pts.GZ.LJson", "a.gz.b.pts", "a.ljson.pts", "a.pts.ljson", "a.pts.gz", "b.PTSX",
+                          "c.ljson.asf"],
+             "image": ["y.jpg.png", "y.PNG.Jpg", "a.gz.b.bmp", "y.pkl.gz", "scan.tar.gz.v2.TIF", "a.abs.png", "a.png.abs",
+                       "b.jpx", "c.flo.pgm"]}
+
+
+def case_dec(run, p):
+    """the exporter's and the importer's decision (format, compressed) for one file name: real export of a tiny object
+    under that name, the bytes on disk, real import; against the model's `exportDecision` / `importDecision`"""
+    import numpy as np
+    import menpo.io as mio
+    from menpo.shape import PointCloud
+    from menpo.image import Image
+    from pathlib import Path
+    ctx = run.ctx
+    rp = rp_of(p)
+    kind, name = p["xkind"], p["name"]
+    site = "C16/names/" + kind
+    ctx.case(("dec", kind, name, bool(p.get("as_path"))), nontrivial=name.count(".") > 1,
+             sample={"kind": "dec", "exporter": kind, "name": name})
+    ctx.count("dec:" + kind)
+    ctx.count("dec:dots:%d" % min(name.count("."), 6))
+    pts = np.array([[1.5, 2.25], [3.0, -4.125], [0.0, 7.0]])
+    px = (np.arange(24, dtype=np.uint8) * 9).reshape(1, 4, 6)
+    obj = {"landmark": PointCloud(pts), "image": Image(px.copy()), "pickle": {"k": [1, 2.5, "ü"], "a": pts}}[kind]
+    exp_fn = {"landmark": mio.export_landmark_file, "image": mio.export_image, "pickle": mio.export_pickle}[kind]
+    imp_fn = {"landmark": mio.import_landmark_file, "pickle": mio.import_pickle,
+              "image": lambda f: mio.import_image(f, landmark_resolver=None, normalize=False)}[kind]
+    with Scratch() as d:
+        fp = os.path.join(d, name)
+        before = snapshot(d)
+        try:
+            exp_fn(obj, Path(fp) if p.get("as_path") else fp)
+            ex = "w"
+        except ValueError:
+            ex = "v"
+        except Exception as e:                         # noqa: BLE001
+            ex = "x:" + type(e).__name__
+        after = snapshot(d)
+        if ex != "w":
+            ctx.count("dec:refused")
+            ctx.check(after == before, site, "failed-export-changed-disk",
+                      "export to %r ended with %r and changed files on disk: %r" % (name, ex, sorted(after)), rp)
+            obs = "err"
+        else:
+            ctx.count("dec:accepted")
+            ctx.check(sorted(after) == [name], site, "wrote-elsewhere",
+                      "export to %r wrote %r" % (name, sorted(after)), rp)
+            raw = open(fp, "rb").read(2) if os.path.exists(fp) else b""
+            gz = raw == b"\x1f\x8b"
+            # ---- oracle: the property text (what is written comes back; gzip iff the name says so)
+            want_gz = kind == "pickle" and name.lower().endswith(".gz")
+            ctx.check(gz == want_gz, site + "/gzip", "compression-flag",
+                      "file %r starts with %r: %s" % (name, raw, "not gzipped although the name ends in .gz" if want_gz
+                                                      else "gzipped although the name does not end in .gz"), rp)
+            try:
+                back = imp_fn(Path(fp) if p.get("as_path") else fp)
+                ok, why = True, ""
+                if kind == "pickle":
+                    ok = (list(back.keys()) == ["k", "a"] and back["k"] == obj["k"] and np.array_equal(back["a"], pts))
+                    why = "pickle came back as %r" % (back,)
+                elif kind == "landmark":
+                    b = list(back.values())[0].points
+                    ok = b.shape == pts.shape and bool(np.all(np.abs(b - pts) <= (0.0005 + 1e-9 if name.lower().endswith(
+                        ".pts") else 0.0)))
+                    why = "points came back as %r" % (b.tolist(),)
+                elif name.lower().rsplit(".", 1)[-1] not in ("jpg", "jpeg", "jpe"):
+                    g = np.asarray(back.pixels)
+                    ok = g.shape == px.shape and bool(np.array_equal(g, px))
+                    why = "pixels came back as %r" % (g.tolist(),)
+                ctx.check(ok, site, "round-trip-differs", "export to / import from %r: %s" % (name, why), rp)
+            except Exception as e:                     # noqa: BLE001
+                ctx.fail(site, "import-raises", "the file %r written by the %s exporter cannot be imported: %s: %s"
+                         % (name, kind, type(e).__name__, e), rp)
+            obs = "ok %s %d" % (name_ext_observed(kind, name), 1 if gz else 0)
+    run.ask("dec", "%s %s" % (kind, name), lambda rep, obs=obs: dec_cmp(rep, obs, kind, name), rp)
+
+
+def name_ext_observed(kind, name):
+    """the extension the real exporter-side parser returns for the name ('?' if the private helper is gone)"""
+    from pathlib import Path
+    try:
+        from menpo.io.output.base import _parse_and_validate_extension
+        from menpo.io.output import extensions as ox
+        tbl = {"landmark": ox.landmark_types, "image": ox.image_types, "pickle": ox.pickle_types}[kind]
+        return _parse_and_validate_extension(Path("/scratch") / name, None, tbl)
+    except (ImportError, AttributeError):
+        return "?"
+    except ValueError:
+        return "err"
+
+
+def importer_observed(kind, name):
+    from pathlib import Path
+    try:
+        from menpo.io.input.base import importer_for_filepath
+        from menpo.io.input import extensions as ix
+        tbl = {"landmark": ix.image_landmark_types, "image": ix.image_types, "pickle": ix.pickle_types}[kind]
+        return callable_name(importer_for_filepath(Path("/scratch") / name, tbl))
+    except (ImportError, AttributeError):
+        return "?"
+    except ValueError:
+        return "err"
+
+
+def dec_cmp(rep, obs, kind, name):
+    ex, _, im = rep.partition(" | ")
+    eo = obs.split()
+    em = ex.split()
+    if eo[0] != em[0]:
+        return "exporter: model %r vs implementation %r" % (ex, obs)
+    if eo[0] == "ok" and not (em[2] == eo[2] and eo[1] in ("?", em[1])):
+        return "exporter (extension, compressed): model %r vs implementation %r" % (ex, obs)
+    io = importer_observed(kind, name)
+    im_m = im.split()
+    if io != "?" and (io == "err") != (im_m[0] == "err"):
+        return "importer: model %r vs implementation %r" % (im, io)
+    if io not in ("?", "err") and im_m[1] != io:
+        return "importer callable: model %r vs implementation %r" % (im, io)
+    return None
+
+
+def gen_lmfront(rng):
+    stem = rng.choice(["a", "x.pts", "s.tar.gz", ".h", "", ".", "m.ljson"])
+    ext = rng.choice([".ljson", ".ljson", ".LJSON", ".Ljson", ".pts", ".PTS", ".txt", ""])
+    return {"kind": "lmfront", "multi": rng.random() < 0.6, "name": stem + ext,
+            "userext": rng.choice(["-", "-", "-", ".ljson", "ljson", "LJSON", ".pts", "pts", ".txt"]), "as_path": rng.random() < 0.5}
+
+
+def case_lmfront(run, p):
+    """export_landmark_file's own check in front of the shared export machinery: a dictionary of groups is accepted for
+    LJSON only, decided on `Path(fp).suffix` literally"""
+    import numpy as np
+    import menpo.io as mio
+    from menpo.shape import PointCloud
+    from pathlib import Path
+    ctx = run.ctx
+    rp = rp_of(p)
+    site = "C16/landmark-front"
+    name = p["name"]
+    ctx.case(("lmfront", json.dumps(p, sort_keys=True)), nontrivial=name.count(".") > 1)
+    ctx.count("lmfront:%s:%s" % ("dict" if p["multi"] else "single", "explicit-extension" if p["userext"] != "-" else "from-name"))
+    pc = PointCloud(np.array([[1.0, 2.0], [3.5, 4.25]]))
+    obj = {"g": pc, "h": PointCloud(np.array([[0.0, 1.0]]))} if p["multi"] else pc
+    if name in ("", ".", ".."):
+        return
+    with Scratch() as d:
+        fp = os.path.join(d, name)
+        kw = {} if p["userext"] == "-" else {"extension": p["userext"]}
+        try:
+            mio.export_landmark_file(obj, Path(fp) if p["as_path"] else fp, **kw)
+            head = open(fp, "rb").read(1)
+            obs = "ok " + (".ljson" if head == b"{" else ".pts")
+        except ValueError:
+            obs = "err"
+            ctx.check(not os.path.exists(fp), site, "failed-export-changed-disk", "a refused export created %r" % name, rp)
+        except Exception as e:                     # noqa: BLE001
+            obs = "exc " + type(e).__name__
+        if obs.startswith("ok"):
+            # ---- oracle: what was written can be read back, with every group
+            try:
+                back = mio.import_landmark_file(fp)
+                want = ["g", "h"] if p["multi"] else (["LJSON"] if obs == "ok .ljson" else ["PTS"])
+                ctx.check(sorted(back.keys()) == want, site, "groups-differ",
+                          "exported %r to %r, groups %r came back" % (want, name, sorted(back.keys())), rp)
+            except Exception as e:                 # noqa: BLE001
+                ctx.fail(site, "import-raises", "the landmark file %r just written cannot be imported: %s: %s" % (
+                    name, type(e).__name__, e), rp)
+    run.ask("lmfront", "%d %s %s" % (1 if p["multi"] else 0, "-" if p["userext"] == "-" else norm_ext(p["userext"]), name),
+            obs, rp)
+
+
 def case_norm(run, p):
+    from pathlib import Path
     ctx = run.ctx
     ctx.case(("norm", p["cwd"], p["spelling"]), nontrivial="/" in p["spelling"])
-    ctx.count("norm:" + ("absolute" if p["spelling"].startswith("@ROOT@") else "relative"))
+    sp0 = p["spelling"]
+    ctx.count("norm:" + ("absolute" if sp0.startswith("@ROOT@") else "tilde" if "~" in sp0 else "variable" if "$" in sp0
+                         else "relative"))
     try:
         from menpo.io.utils import _norm_path
     except (ImportError, AttributeError):
         ctx.count("norm:private-helper-unavailable")
         return
-    with Scratch() as d:
+    with Scratch() as d, EnvVars(HOME=d + p.get("home_tail", ""), C16ROOT=d, C16SUB="p/q"):
         cwd = os.path.join(d, p["cwd"])
         os.makedirs(cwd)
         os.chdir(cwd)
-        sp = p["spelling"].replace("@ROOT@", d)
-        obs = "ok " + str(_norm_path(sp))
-    run.ask("norm", "%s %s" % (cwd, sp), obs, rp_of(p))
+        sp = sp0.replace("@ROOT@", d)
+        obs = "ok %s %s" % (_norm_path(Path(sp)), _norm_path(sp))
+        req = "%s 3 HOME %s C16ROOT %s C16SUB p/q %s" % (cwd, d + p.get("home_tail", ""), d, sp)
+    run.ask("norm", req, obs, rp_of(p))
 
 
 def gen_norm(rng):
-    comps = ["a", "b", "..", ".", "", "c.d", "..", "x"]
+    comps = ["a", "b", "..", ".", "", "c.d", "..", "x", "$C16SUB", "${C16SUB}", "$C16UNSET", "${C16UNSET}x", "~", "$", "${C16SUB",
+             "a$C16SUB.b", "$C16SUBx", "~c16nosuchuser"]
     body = "/".join(rng.choice(comps) for _ in range(rng.randint(1, 6))) + "/" + rng.choice(["f.pkl", "g.tar.gz", "h"])
-    if rng.random() < 0.4:
+    r = rng.random()
+    if r < 0.3:
         body = "@ROOT@/" + body
+    elif r < 0.5:
+        body = rng.choice(["~/", "~", "./~/", "~//", "$C16ROOT/", "${C16ROOT}/./", "~c16nosuchuser/", ".//~/"]) + body
     elif body.startswith("/"):
         body = "." + body
-    return {"kind": "norm", "cwd": rng.choice(["w", "w/v", "p/q/r"]), "spelling": body}
+    return {"kind": "norm", "cwd": rng.choice(["w", "w/v", "p/q/r"]), "spelling": body,
+            "home_tail": rng.choice(["", "", "/", "//"])}
 
 
 def case_exts(run, p):
@@ -1079,6 +2089,7 @@ def case_exts(run, p):
 
 CASES = {"ljson": case_ljson, "ljson-empty": case_ljson_empty, "pts": case_pts, "pickle": case_pickle,
          "image8": case_image8, "imagef": case_imagef, "mode": case_mode, "guard": case_guard, "ext": case_ext,
+         "dec": case_dec, "legacy": case_legacy, "range": case_range, "ptsn": case_ptsn, "ptree": case_ptree, "lmfront": case_lmfront,
          "norm": case_norm, "exts": case_exts}
 
 
@@ -1095,21 +2106,29 @@ def explore(run, k, thorough=False):
         run_case(run, gen_ljson(rng))
     for dim in (2, 3):
         run_case(run, {"kind": "ljson-empty", "dim": dim})
+    for _ in range(30 * k):
+        run_case(run, gen_legacy(rng))
     for _ in range(25 * k):
         run_case(run, gen_pts(rng))
+    for _ in range(15 * k):
+        run_case(run, gen_ptsn(rng))
     recipes = list(pickle_recipes().keys())
     for r in recipes:                       # every family, every run
         run_case(run, gen_pickle(rng, r))
     for _ in range(10 * k):
         run_case(run, gen_pickle(rng))
+    for top in ("O", "O", "L", "D", "T", None, None):      # object trees (menpo objects on top twice, every container once)
+        for _ in range(2 * k):
+            run_case(run, {"kind": "ptree", "tree": gen_ptree(rng, top=top), "gz": rng.random() < 0.5,
+                           "protocol": rng.choice([2, 3, 4])})
     # every lossless codec x {grey, RGB} with all 256 values, every run
     for f in fmts:
         for src in ("L", "RGB"):
             p = gen_image8(rng, fmts, source=src, all256=True)
             p["fmt"] = f
             run_case(run, p)
-    for src in ("RGBA", "1", "mem-u8"):
-        run_case(run, gen_image8(rng, fmts, source=src, all256=(src != "1")))
+    for src in ("RGBA", "1", "mem-u8", "mem-bool"):
+        run_case(run, gen_image8(rng, fmts, source=src, all256=(src not in ("1", "mem-bool"))))
     for _ in range(20 * k):
         run_case(run, gen_image8(rng, fmts))
     for dt in ("float64", "float32"):
@@ -1119,9 +2138,19 @@ def explore(run, k, thorough=False):
         run_case(run, gen_imagef(rng, fmts))
     for c in (1, 2, 3, 4, 5):
         run_case(run, {"kind": "mode", "channels": c})
+    for N in (255, 65535):
+        run_case(run, {"kind": "range", "N": N})
     for ex in ("landmark", "image", "pickle", "video"):
         for _ in range(3):
             run_case(run, gen_guard(rng, ex))
+        nm = GOOD_NAMES[ex][1]          # directed: '~', './~' (str and Path), $VAR spellings of one existing file
+        for first in (13, 7):
+            run_case(run, {"kind": "guard", "exporter": ex, "sub": "sub", "precreate": [nm], "tilde_dir": True, "ops": [
+                {"name": nm, "spell": first, "as_path": False, "overwrite": False, "userext": "-"},
+                {"name": nm, "spell": 13, "as_path": True, "overwrite": False, "userext": "-"},
+                {"name": nm, "spell": 8, "as_path": False, "overwrite": True, "userext": "-"},
+                {"name": nm, "spell": 13, "as_path": False, "overwrite": True, "userext": "-"},
+                {"name": nm, "spell": 9, "as_path": True, "overwrite": False, "userext": "-"}]})
     for _ in range(30 * k):
         run_case(run, gen_guard(rng))
     for _ in range(30 * k):
@@ -1129,6 +2158,13 @@ def explore(run, k, thorough=False):
         run_case(run, {"kind": "ext", "xkind": xk, "name": gen_name(rng, xk)})
     for _ in range(20 * k):
         run_case(run, gen_norm(rng))
+    for _ in range(12 * k):
+        run_case(run, gen_lmfront(rng))
+    for xk in ("pickle", "landmark", "image"):          # the directed multi-dot names, every run
+        for nm in DEC_NAMES[xk]:
+            run_case(run, {"kind": "dec", "xkind": xk, "name": nm, "as_path": rng.random() < 0.5})
+    for _ in range(40 * k):
+        run_case(run, gen_dec(rng, rng.choice(["pickle", "pickle", "landmark", "image"]), fmts))
     for xk in ("landmark", "image", "pickle", "video"):
         run_case(run, {"kind": "exts", "xkind": xk})
 
@@ -1150,11 +2186,16 @@ def search(ctx):
 
 
 def run(ctx):
-    common.prepare_lean(ctx, PROP, IMPORTS, THEOREMS)
+    gen_ok = generated(ctx)
+    if gen_ok:
+        common.prepare_lean(ctx, PROP, IMPORTS + [GEN_IMPORT], THEOREMS + GEN_THEOREMS,
+                            targets=TARGETS + [GEN_IMPORT])
+    else:      # a regenerated obligation no longer checks: audit what still builds, then let the oracle search
+        common.prepare_lean(ctx, PROP, IMPORTS, THEOREMS, targets=TARGETS)
     ctx.trusted += ["Lean Float = IEEE binary64 as numpy float64 (validated on all 256 eight-bit values each run)",
                     "contracts: json, '%.3f', PIL lossless codecs (probed per run), pickle, gzip, os.path"]
     r = Run(ctx)
-    explore(r, ctx.n(3, 30), thorough=not ctx.quick())
+    explore(r, ctx.n(4, 80), thorough=not ctx.quick())
     r.settle()
     return ctx.finish(search)
 
@@ -1169,7 +2210,7 @@ def replay(ctx, path):
     if not case or case.get("kind") not in CASES:
         ctx2 = common.Ctx(PROP, "quick", int(data.get("seed", 0)))
         return run(ctx2)
-    common.prepare_lean(ctx, PROP, IMPORTS, THEOREMS)
+    common.prepare_lean(ctx, PROP, IMPORTS, THEOREMS, targets=TARGETS)
     r = Run(ctx)
     lossless_codecs(r)
     run_case(r, case)
